@@ -17,6 +17,7 @@ use rxrust::prelude::*;
 use rxrust::ops::throttle::ThrottleEdge;
 use rxrust::scheduler::verif::{VerifScheduler, VerifSchedulerThreads};
 
+use crate::ascript::{Script, ScriptedFuture, ScriptedStream, ScriptedTryFuture, ScriptedTryStream};
 use crate::sexp::SExp;
 use crate::val::{fn1, fn2, fne, fnopt, pred, Notif, Val};
 
@@ -99,6 +100,11 @@ impl LCtx {
       Val::Int(k)
     }
   }
+  /// counts the items a scripted stream yields (`stream`, `streamres`)
+  fn pull_tick(&self) -> impl Fn() + Clone + Unpin + 'static {
+    let c = self.counters.clone();
+    move || c.borrow_mut().pulls += 1
+  }
   fn create(&self, script: Vec<Notif>) -> LBox {
     let creates = self.creates.clone();
     observable::create(move |s: Subscriber<BoxObserver<'static, Val, i64>>| {
@@ -142,6 +148,11 @@ impl TCtx {
       c.lock().unwrap().pulls += 1;
       Val::Int(k)
     }
+  }
+  /// counts the items a scripted stream yields (`stream`, `streamres`)
+  fn pull_tick(&self) -> impl Fn() + Clone + Send + Unpin + 'static {
+    let c = self.counters.clone();
+    move || c.lock().unwrap().pulls += 1
   }
   fn create(&self, script: Vec<Notif>) -> TBox {
     let creates = self.creates.clone();
@@ -308,6 +319,24 @@ macro_rules! impl_build {
           observable::defer(move || observable::timer_at(v, Instant::now() + d, sc))
             .on_error_map(widen)
             .box_it()
+        }
+        // ------------------------------------------------- async sources
+        // scripted futures / streams (ascript.rs), spawned on the case's scheduler
+        "future" => {
+          let f = ScriptedFuture(Script::new(&xs[1..], ctx.pull_tick()));
+          observable::from_future(f, ctx.sched.clone()).on_error_map(widen).box_it()
+        }
+        "futureres" => {
+          let f = ScriptedTryFuture(Script::new(&xs[1..], ctx.pull_tick()));
+          observable::from_future_result(f, ctx.sched.clone()).box_it()
+        }
+        "stream" => {
+          let st = ScriptedStream(Script::new(&xs[1..], ctx.pull_tick()));
+          observable::from_stream(st, ctx.sched.clone()).on_error_map(widen).box_it()
+        }
+        "streamres" => {
+          let st = ScriptedTryStream(Script::new(&xs[1..], ctx.pull_tick()));
+          observable::from_stream_result(st, ctx.sched.clone()).box_it()
         }
         // --------------------------------------------- scheduler-using ops
         "delay" => last().$delay(ms(&xs[1]), ctx.sched.clone()).box_it(),
